@@ -218,4 +218,6 @@ def replay(ctx, rep):
         rc, out = vlib.go_test("./internal/execution/", "TestVerifTaintConsumedWhenBuildReturns", timeout=600)
         print(out[-1500:])
         return 1 if rc else 0
+    if rep.get("signature") == "taint-not-consumed-by-successful-execution":
+        return H2.replay_oracles(ctx, rep)
     return H.replay_history(ctx, rep)
